@@ -257,6 +257,10 @@ def sched_corpus(tier):
                 res.append({"key": ["qb:" + d, s, None], "ops": ["i:" + d, "p:" + d], "bound": 1})
             res.append({"key": ["qb:" + d, "dele", None], "ops": ["i:" + d, "p:" + d], "bound": 2})
             res.append({"key": ["qb:" + d, "upd_join", None], "ops": ["str", "str", "p:" + d], "bound": 1})
+    # dialect-sensitive constants rendered for two *different* dialects at once (state kept outside the object between two
+    # steps of one render - a class attribute, a module global - is only visible when the other thread renders for another dialect)
+    for sname in zoo.sens_seeds():
+        res.append({"key": ["sens", sname, None], "ops": ["p:mysql", "i:postgresql"], "bound": 1})
     res.append({"key": ["create", "c_full", None], "ops": ["str", "i:mysql"], "bound": 1})
     res.append({"key": ["term:Case", "z", None], "ops": ["str", "p:postgresql"], "bound": 1})
     res.append({"key": ["term:AnalyticFunction", "z", None], "ops": ["str", "hash"], "bound": 1})
